@@ -137,6 +137,9 @@ namespace rkcommon {
 
     inline bool Any::operator==(const Any &rhs) const
     {
+      // empty Anys hold no value to compare: equal only to each other
+      if (!valid() || !rhs.valid())
+        return !valid() && !rhs.valid();
       return currentValue->isSame(rhs.currentValue.get());
     }
 
@@ -195,6 +198,8 @@ namespace rkcommon {
 
     inline std::string Any::toString() const
     {
+      if (!valid())
+        return "Any : (currently holds no value)";
       std::stringstream retval;
       retval << "Any : (currently holds value of type) --> "
              << demangle(currentValue->valueTypeID().name());
